@@ -1,5 +1,6 @@
 import Got.Drv.Common
 import Got.Model.Atomics
+import Got.Model.AtomicsGen
 /-
 drv_atomics: one self-contained case per line (see harness/cmd/c17/main.go for the same grammar)
 
@@ -15,6 +16,12 @@ drv_atomics: one self-contained case per line (see harness/cmd/c17/main.go for t
 
   output: one token per step `<tid>.<site>:<word after>` with `=<result>` appended when the step completed an op,
   `<tid>.-` for a finished thread, `L:<word>` / `R:<word>`, then `end=<word>` (and `occ=<max holders>` for mx).
+-/
+/-
+  `drv_atomics ast`: the `fl` and `ai` lines are answered by the LTS GENERATED from the source (Got/Model/AtomicsGen.lean:
+  AtomicIR semantics of the programs tools/srcfacts re-translates from loom/flag.go and loom/atomic.go on every run)
+  instead of the hand-written `stepF`/`stepA`; HasFlag (not translated: one atomic load, no yield point) is computed from the
+  generated LTS's word; other lines answer `not-translated`.
 -/
 namespace Got.Drv.Atomics
 open Got.Model.Atomics Got.Drv
@@ -284,9 +291,191 @@ def runLine (line : String) : String :=
     | _ => "bad-op"
   | _ => "bad-op"
 
+
+/-! ### `ast` mode: flag and AddIf64 engines on the generated LTSs -/
+namespace Ast
+open Got.Model.AtomicIR Got.Model.AtomicsGen
+
+def siteOf (c : Config) (ld cs : Nat) : Option Nat :=
+  match c with
+  | .idle => some 0
+  | _ =>
+    match c.pendingCas with
+    | some false => some ld
+    | some true => some cs
+    | none => some 999      -- crashed / stuck: never matches the implementation
+
+structure GFSim where
+  g : GState
+  progs : Array (List FlOp)
+
+def GFSim.startHead (s : GFSim) (t : Nat) : GFSim :=
+  match s.progs[t]? with
+  | some (.A f :: _) => { s with g := flagStep s.g (.invoke t (.add f)) }
+  | some (.R f :: _) => { s with g := flagStep s.g (.invoke t (.remove f)) }
+  | _ => s
+
+def GFSim.pop (s : GFSim) (t : Nat) : GFSim :=
+  GFSim.startHead { s with progs := s.progs.modify t List.tail } t
+
+def flEngG : Eng GFSim where
+  nthreads s := s.progs.size
+  obs s := toString s.g.mem.cell.toInt
+  env _ _ := none
+  site s t :=
+    match s.progs[t]? with
+    | some (.H _ :: _) => some 101
+    | some (_ :: _) => siteOf (s.g.conf t) 11 12
+    | _ => none
+  step s t :=
+    match s.progs[t]? with
+    | some (.H f :: _) => (s.pop t, "=" ++ showB (hasFlag s.g.mem.cell f))
+    | some (_ :: _) =>
+      let s : GFSim := { s with g := flagStep s.g (.tau t) }
+      if isIdle (s.g.conf t) then (s.pop t, "=r") else (s, "")
+    | _ => (s, "")
+
+structure GASim where
+  g : GState
+  limit : Int
+  progs : Array (List W64)
+
+def GASim.startHead (s : GASim) (t : Nat) : GASim :=
+  match s.progs[t]? with
+  | some (d :: _) => { s with g := addIfStep (limitPred s.limit) s.g (.invoke t d) }
+  | _ => s
+
+def GASim.pop (s : GASim) (t : Nat) : GASim :=
+  GASim.startHead { s with progs := s.progs.modify t List.tail } t
+
+def aiEngG : Eng GASim where
+  nthreads s := s.progs.size
+  obs s := toString s.g.mem.cell.toInt
+  env _ _ := none
+  site s t :=
+    match s.progs[t]? with
+    | some (_ :: _) => siteOf (s.g.conf t) 13 14
+    | _ => none
+  step s t :=
+    match s.progs[t]? with
+    | some (_ :: _) =>
+      let s : GASim := { s with g := addIfStep (limitPred s.limit) s.g (.tau t) }
+      if isIdle (s.g.conf t) then
+        (s.pop t, match s.g.hist.getLast? with | some (_, .ret (some (.bool b))) => "=" ++ showB b | _ => "=?")
+      else (s, "")
+    | _ => (s, "")
+
+
+/-! mutex engine on the generated LTS: the TryLock threads are those of `Got.Model.AtomicsGen.mutexProg` (site, word and
+    result printed from the generated state); Unlock / real Lock traffic (`U`, `L`, `R`) is the hand-written transcription
+    of sync.Mutex (`MSim`, which also does the holder bookkeeping) — exactly the joint system `AtomicsGen.Mx`. -/
+structure GMSim where
+  sim : MSim
+  g : GState
+
+def GMSim.sync (s : GMSim) : GMSim :=
+  { s with g := { s.g with mem := { s.g.mem with cell32 := s.sim.m.word } } }
+
+def GMSim.startHead (s : GMSim) (t : Nat) : GMSim :=
+  match s.sim.progs[t]? with
+  | some (MOp.T :: _) => { sim := s.sim.startHead t, g := step mutexProg noPred s.g (.inv t 0 []) }
+  | _ => s
+
+def GMSim.pop (s : GMSim) (t : Nat) : GMSim :=
+  GMSim.startHead { s with sim := { s.sim with progs := s.sim.progs.modify t List.tail } } t
+
+def envLen : Config → Nat
+  | .run _ env _ => env.length
+  | _ => 0
+
+def mxEngG : Eng GMSim where
+  nthreads s := s.sim.progs.size
+  obs s := toString s.g.mem.cell32.toInt
+  site s t :=
+    match s.sim.progs[t]? with
+    | some (MOp.T :: _) =>
+      match s.g.conf t with
+      | .idle => some 0
+      | c =>
+        match c.pendingCas with
+        | some false => some 9
+        | some true => if envLen c = 0 then some 8 else some 10
+        | none => some 999
+    | some (MOp.U :: _) => some 100
+    | _ => none
+  step s t :=
+    match s.sim.progs[t]? with
+    | some (MOp.T :: _) =>
+      let act := match s.sim.m.pc t with
+        | .cas1 => MAct.tryCas1 t | .load => MAct.tryLoad t | .cas2 _ => MAct.tryCas2 t | .idle => MAct.tryStart t
+      let s : GMSim := { sim := MSim.note { s.sim with m := stepM s.sim.m act }, g := step mutexProg noPred s.g (.tau t) }
+      if isIdle (s.g.conf t) then
+        let r := match lastRetB s.g.hist t with | some b => "=" ++ showB b | none => "=?"
+        (s.pop t, r)
+      else (s, "")
+    | some (MOp.U :: _) =>
+      if t ∈ s.sim.m.holders then (({ s with sim := (s.sim.unlockBy t).note }).sync.pop t, "=u") else (s.pop t, "=n")
+    | _ => (s, "")
+  env s tok :=
+    match mxEng.env s.sim tok with
+    | some sim' => some ({ s with sim := sim' }).sync
+    | none => none
+
+def runLine (line : String) : String :=
+  match line.splitOn " | " with
+  | [head, progs, sched] =>
+    let sched := words sched
+    match words head with
+    | ["mx", w] =>
+      match w.toInt?, parseProgs parseMOp progs with
+      | some w, some ps =>
+        let sim : MSim := { m := initM (BitVec.ofInt 32 w), progs := ps, parked := [], realHolder := none, nextG := 100, maxocc := 0 }
+        let s : GMSim := { sim := { sim with progs := ps }, g := mxInit (BitVec.ofInt 32 w) }
+        let s := startAll GMSim.startHead ps.size s
+        let (s, out) := runSched mxEngG s sched
+        joinSp (out ++ [s!"end={s.g.mem.cell32.toInt}", s!"occ={s.sim.maxocc}"])
+      | _, _ => "bad-op"
+    | ["fl", v] =>
+      match v.toInt?, parseProgs parseFlOp progs with
+      | some v, some ps =>
+        let s : GFSim := { g := flagInit (ofI64 v), progs := ps }
+        let s := startAll GFSim.startHead ps.size s
+        let (s, out) := runSched flEngG s sched
+        joinSp (out ++ [s!"end={s.g.mem.cell.toInt}"])
+      | _, _ => "bad-op"
+    | ["ai", v, lim] =>
+      match v.toInt?, lim.toInt?, parseProgs parseAOp progs with
+      | some v, some lim, some ps =>
+        let s : GASim := { g := addIfInit (ofI64 v), limit := lim, progs := ps }
+        let s := startAll GASim.startHead ps.size s
+        let (s, out) := runSched aiEngG s sched
+        joinSp (out ++ [s!"end={s.g.mem.cell.toInt}"])
+      | _, _, _ => "bad-op"
+    | _ => "not-translated"
+  | [single] =>
+    let cnt (w : Word) : String :=
+      match (countRun w).hist.getLast? with
+      | some (_, .ret (some (.i64 r))) => s!"w={w.toInt} c={r.toInt}"
+      | _ => s!"w={w.toInt} c=?"
+    match words single with
+    | ["cnt", "real", h, k] =>
+      match h.toNat?, k.toNat? with
+      | some h, some k => cnt (realWord (h != 0) k).word
+      | _, _ => "bad-op"
+    | ["cnt", "raw", w] =>
+      match w.toInt? with
+      | some w => cnt (BitVec.ofInt 32 w)
+      | none => "bad-op"
+    | [] => ""
+    | _ => "bad-op"
+  | _ => "not-translated"
+
+end Ast
+
 def step (_ : Unit) (line : String) : Unit × String := ((), runLine line)
 
-def main (_args : List String) : IO Unit := do
-  lineLoop (← IO.getStdin) (← IO.getStdout) step ()
+def main (args : List String) : IO Unit := do
+  if args = ["ast"] then lineLoop (← IO.getStdin) (← IO.getStdout) (fun (_ : Unit) l => ((), Ast.runLine l)) ()
+  else lineLoop (← IO.getStdin) (← IO.getStdout) step ()
 
 end Got.Drv.Atomics
